@@ -37,6 +37,13 @@ def draw_tables(rng: random.Random, fast: bool = True) -> Dict[str, Dict[str, fl
     return {"active": a, "idle": i}
 
 
+def draw_firmware(rng) -> Dict[str, Any]:
+    """Firmware versions a spa may report (build 16 bit, major/minor 8 bit)."""
+    def one():
+        return [rng.choice([0, 61, 88, 89, 65535]), rng.choice([0, 1, 9, 11, 12, 14, 15, 255]), rng.choice([0, 3, 255])]
+    return {"EN": one(), "CO": one()}
+
+
 def table_max(tables: Dict[str, Dict[str, float]], key: str) -> float:
     from geckolib import config as cfgmod
 
@@ -56,6 +63,12 @@ class System:
         self.snap_path = os.path.join(repo_root(), "tests", "snapshots", snap)
         self.peer = SpaPeer(world.loop, world.net, self.snap_path, cls=model_spa_class() if model else None)
         world.peers.append(self.peer)
+        fw = world.cfg.get("firmware")
+        if fw:
+            # peer-supplied data: the in.touch2 firmware versions reported in the handshake (every shipped snapshot says EN v14/v15)
+            self.peer.sim.snapshot._intouch_EN = tuple(fw["EN"])
+            self.peer.sim.snapshot._intouch_CO = tuple(fw["CO"])
+            world.result.probe("firmware_version_drawn")
         self.calls = CallRecorder(world)
         self.queues: Dict[str, QueueRecorder] = {}
         self.protocols: Dict[str, Any] = {}
